@@ -4,8 +4,8 @@ import itertools
 from .. import core, gen
 
 RULE = ("structures: random consistent Atoms (≤6 atoms quick / ≤7 thorough, mixed term kinds, coefficient tables, extra "
-        "columns); deletions: EVERY non-empty ordered subset for the small structures, random subsets (in random listing "
-        "order) for larger ones; pop() and pop(i) for every i in [-n, n). Non-trivial = distinct input whose deletion "
+        "columns); deletions: EVERY non-empty ordered subset for the small structures (a share of them also in numpy's "
+        "negative spelling k - n), random subsets (in random listing order, 30% with negative spellings) for larger ones; pop() and pop(i) for every i in [-n, n). Non-trivial = distinct input whose deletion "
         "removes at least one term and keeps at least one term.")
 
 
@@ -60,12 +60,16 @@ def cases(ctx, oracle_only=False):
         for r in range(1, n + 1):
             for idx in itertools.permutations(range(n), r):
                 out.append(("delete", aj, list(idx)))
+                if rng.random() < 0.15:     # numpy's other spelling of the same positions (k - n)
+                    out.append(("delete", aj, respell(rng, list(idx), n)))
         for i in [None] + list(range(-n, n)):
             out.append(("pop", aj, i))
     for s in range(ctx.n(400, 4000)):
         aj = gen.rand_atoms(rng, n=rng.randint(3, ctx.n(8, 14)))
         n = len(aj["atoms"])
         idx = rng.sample(range(n), rng.randint(1, n))
+        if rng.random() < 0.3:
+            idx = respell(rng, idx, n)
         out.append(("delete", aj, idx))
         if s % 5 == 0:
             out.append(("pop", aj, rng.choice([None, rng.randint(-n, n - 1)])))
@@ -73,15 +77,19 @@ def cases(ctx, oracle_only=False):
 
 
 def run(ctx, oracle_only=False):
-    ctx.rule = RULE
+    ctx.rule = RULE + WIDE_RULE
     cs = cases(ctx)
     ops, impls = [], []
     for kind, aj, arg in cs:
         if kind == "delete":
-            inp = {"op": "delete", "a": aj, "idx": arg}
+            n = len(aj["atoms"])
+            if any(i < 0 for i in arg):
+                inp = {"op": "delete_norm", "a": aj, "idx": arg}
+            else:
+                inp = {"op": "delete", "a": aj, "idx": arg}
             r = _delete(aj, arg)
-            bad = oracle_delete(aj, arg, r)
-            dead = set(arg)
+            dead = {i % n for i in arg}
+            bad = oracle_delete(aj, sorted(dead), r)
         else:
             n = len(aj["atoms"])
             inp = {"op": "pop", "a": aj, "i": -1 if arg is None else arg, "default": arg is None}
@@ -98,10 +106,148 @@ def run(ctx, oracle_only=False):
         ops.append(inp)
         impls.append(r)
     if oracle_only:
+        run_wide(ctx, oracle_only=True)
         return
     models = ctx.lean.run(ops)
     for inp, r, m in zip(ops, impls, models):
         ctx.compare(inp["op"], inp, r, m)
+    run_wide(ctx)
+
+
+# =============================================================================================== widened index domain
+
+WIDE_RULE = (" Widened domain (stream 'wide', model Atoms.deleteNorm of Model/TopoWide.lean): index lists with negative, "
+             "repeated, unsorted integers in [-n, n) — the property's oracle applies to the normalised SET of positions —, "
+             "out-of-range integers (IndexError, object unchanged), pop(pos) far outside [-n, n) and on an empty structure. "
+             "Boolean masks, scalars and slices are outside the domain: outcome observed and counted only.")
+
+
+def _norm_err(r):
+    return {"err": "error"} if "err" in r else r
+
+
+def _delete_any(aj, arg):
+    """`del a[arg]` for any python object `arg`; -> (result, dump of the object AFTER the call even when it raised)"""
+    box = {}
+
+    def f():
+        a = core.atoms_from_json(aj)
+        box["a"] = a
+        del a[arg]
+        return core.canon_atoms(a)
+    r = core.result_of(f)
+    after = None
+    try:
+        after = core.canon_atoms(box["a"])
+    except Exception:  # noqa
+        pass
+    return r, after
+
+
+def respell(rng, idx, n, p=0.5):
+    """the same positions in numpy's other spelling: k or k - n"""
+    return [i - n if rng.random() < p else i for i in idx]
+
+
+def wide_cases(ctx):
+    """(category, op for the model or None, python argument)"""
+    rng = ctx.rng
+    out = []
+    for s in range(ctx.n(150, 2000)):
+        aj = gen.rand_atoms(rng, n=rng.randint(1, ctx.n(7, 10)), term_density=rng.randint(1, 3))
+        n = len(aj["atoms"])
+        c = rng.choice(["neg", "neg", "neg", "dup", "dup", "alias", "mixed", "mixed", "oob", "oob", "empty", "mask",
+                        "scalar", "slice", "pop", "pop"])
+        if c == "neg":      # distinct positions, at least one written as a negative integer, any order
+            pos = rng.sample(range(n), rng.randint(1, n))
+            idx = [p - n if (rng.random() < 0.6 or j == 0) else p for j, p in enumerate(pos)]
+            rng.shuffle(idx)
+        elif c == "dup":    # some position repeated
+            pos = [rng.randrange(n) for _ in range(rng.randint(1, 3))]
+            idx = respell(rng, pos + [rng.choice(pos)], n, 0.3)
+            rng.shuffle(idx)
+        elif c == "alias":  # the same atom once as k and once as k - n
+            k = rng.randrange(n)
+            idx = [k, k - n] + ([rng.randrange(n)] if rng.random() < 0.4 else [])
+            rng.shuffle(idx)
+        elif c == "mixed":
+            idx = [rng.randint(-n, n - 1) for _ in range(rng.randint(1, 5))]
+        elif c == "oob":
+            idx = [rng.randint(-n, n - 1) for _ in range(rng.randint(0, 2))] + [rng.choice([n, n + 1, -n - 1, -n - 3])]
+            rng.shuffle(idx)
+        elif c == "empty":
+            idx = []
+        if c in ("neg", "dup", "alias", "mixed", "oob", "empty"):
+            out.append((c, {"op": "delete_norm", "a": aj, "idx": idx}, idx))
+        elif c == "mask":
+            out.append((c, None, (aj, [rng.random() < 0.4 for _ in range(n)])))
+        elif c == "scalar":
+            out.append((c, None, (aj, rng.randint(-n, n - 1))))
+        elif c == "slice":
+            out.append((c, None, (aj, slice(0, rng.randint(1, n)))))
+        else:
+            pos = rng.choice([rng.randint(-4 * n, 4 * n), n, -n - 1, 2 * n, 10 ** 6 + 1, -(10 ** 6)])
+            out.append((c, {"op": "pop", "a": aj, "i": pos}, pos))
+    out.append(("pop-empty", {"op": "pop", "a": {"cell": None, "atoms": [], "terms": {}, "types": {}, "xlabels": {}}, "i": -1}, -1))
+    return out
+
+
+def run_wide(ctx, oracle_only=False):
+    ops, impls = [], []
+    for cat, op, arg in wide_cases(ctx):
+        ctx.count("wide:" + cat)
+        if op is None:
+            # outside the domain: what happens is recorded, nothing is demanded
+            aj, x = arg
+            r, after = _delete_any(aj, x)
+            n = len(aj["atoms"])
+            if "err" in r:
+                left = "unknown" if after is None else ("unchanged" if after == aj else "inconsistent-or-changed")
+                ctx.count("wide:%s:raises/%s" % (cat, left))
+            else:
+                ctx.count("wide:%s:returns" % cat)
+            ctx.evaluations += 1
+            continue
+        aj = op["a"]
+        n = len(aj["atoms"])
+        if op["op"] == "pop":
+            if n == 0:
+                def f():
+                    from mofun import Atoms
+                    a = Atoms()
+                    a.pop(arg)
+                    return core.canon_atoms(a)
+                r = core.result_of(f)
+                if "err" not in r:
+                    ctx.fail("pop on an empty structure did not raise", op, observed=r)
+            else:
+                r = _pop(aj, arg)
+                bad = oracle_delete(aj, [arg % n], r)
+                if bad:
+                    ctx.fail("pop(%d) on %d atoms: %s" % (arg, n, bad), dict(op, default=False), observed=r)
+            ctx.case(op, nontrivial=n > 1)
+        else:
+            r, after = _delete_any(aj, arg)
+            dead = {i % n for i in arg} if cat != "oob" else set()
+            touched = [bool(set(t["a"]) & dead) for k in gen.KINDS for t in aj["terms"][k]]
+            ctx.case(op, nontrivial=(any(touched) and not all(touched)))
+            if cat == "oob":
+                if "ok" in r:
+                    ctx.fail("deletion with an index outside [-n, n) did not raise", op, observed=r)
+                elif after is not None and after != aj:
+                    ctx.fail("a rejected deletion (index outside [-n, n)) changed the object", op, observed=after)
+            else:
+                # valid integers: the property applies to the normalised set of positions
+                bad = oracle_delete(aj, sorted(dead), r)
+                if bad:
+                    ctx.fail("del a[%s] on %d atoms: %s" % (arg, n, bad), op, observed=r)
+        ops.append(op)
+        impls.append(_norm_err(r))
+    if oracle_only:
+        return
+    models = ctx.lean.run(ops)
+    for op, r, m in zip(ops, impls, models):
+        ctx.compare(op["op"], op, r, _norm_err(m))
 
 
 def search(ctx):
@@ -116,6 +262,12 @@ def search(ctx):
 
 def replay(ctx, rec):
     inp = rec["input"]
+    if inp["op"] == "delete_norm":
+        n = len(inp["a"]["atoms"])
+        r, after = _delete_any(inp["a"], inp["idx"])
+        if any(not -n <= i < n for i in inp["idx"]):
+            return "err" in r and (after is None or after == inp["a"])
+        return oracle_delete(inp["a"], sorted({i % n for i in inp["idx"]}), r) is None
     if inp["op"] == "delete":
         return oracle_delete(inp["a"], inp["idx"], _delete(inp["a"], inp["idx"])) is None
     n = len(inp["a"]["atoms"])
